@@ -78,8 +78,18 @@ func (c *Cache[K, D]) CheckExpirations(now time.Time) {
 	c.Range(func(key K, value *Element[D]) bool {
 		if value.IsExpired(now) {
 			verifYield("Cache.CheckExpirations.expired")
-			c.Delete(key)
-			value.onExpire(value.Data())
+			// remove the entry only if it is still the one that was examined
+			removed := false
+			c.ReplaceWithFunc(key, func(oldValue *Element[D], oldLoaded bool) (*Element[D], bool) {
+				if oldLoaded && oldValue == value && oldValue.IsExpired(now) {
+					removed = true
+					return nil, true
+				}
+				return oldValue, !oldLoaded
+			})
+			if removed {
+				value.onExpire(value.Data())
+			}
 		}
 		return true
 	})
